@@ -514,9 +514,16 @@ def drag_case(ctx, alg, cfg, name, i):
             else:
                 moved_any = True
             base = list(full)
+            tiny = rng.random() < 0.3
             for j in ([] if stay else rng.sample(range(n), rng.randint(1, min(3, n)))):
                 if canon[j] in cur:
-                    full[j] = rng.randint(-20, 20) / 4.0
+                    if tiny:
+                        # a point far from the origin nudged by a hair: the reported float differs from the stored one in the last digits only
+                        big = cur[canon[j]] if abs(cur[canon[j]]) >= 1000 else rng.choice((2500.0, -2000.0, 1.0e6))
+                        full[j] = big * (1 + 2.0 ** -rng.randint(18, 40)) if cur[canon[j]] == big else big
+                        ctx.count('tiny_relative_moves_reported')
+                    else:
+                        full[j] = rng.randint(-20, 20) / 4.0
             if full != base:
                 really_moved = True
             news.append({'mv': full})
@@ -546,8 +553,8 @@ def drag_case(ctx, alg, cfg, name, i):
                 probs.append(['value container replaced (not in place)'])
             for k, v in zip(p.keys(), now[3]):
                 want = new['mv'][key2idx[k]]
-                if not coef_equal(v, want, 1e-12):
-                    probs.append(['coefficient', alg.bin2canon[k], v, want])
+                if not (v == want):          # the reported float itself is stored: exact comparison
+                    probs.append(['coefficient', alg.bin2canon[k], repr(v), repr(want)])
         for o, snap in zip(others, before_oth):
             if snapshot_mv(o) != snap:
                 probs.append(['an undragged multivector changed', list(snap[2])])
